@@ -28,7 +28,7 @@ static void write_uint32(FILE *out, uint32_t value)
 
 int write_amiga(Memory *memory, FILE *out)
 {
-  uint32_t n;
+  uint64_t n;
   uint32_t length = (memory->high_address + 1) - memory->low_address;
   // Hunk sizes are in longwords: round up and pad with zeros.
   uint32_t longs = (length + 3) / 4;
